@@ -429,7 +429,7 @@ contract('AdbDevice._push',
                    dict(FSREAD_VARIANTS[0], stream='obj:_BytesIO', __twin__='async')],
          locals={'total_bytes': 'int'},
          props=['C07', 'C10', 'C04', 'C12'],
-         escape_props=['C07'],
+         escape_props=['C07', 'C10'],
          requires=PUSH_PRE,
          modifies=PUSH_MOD,
          ensures=[('C07', 'DATA-chunks-concatenate-to-exactly-the-source-content', SENT_ALL + ' and G.fpos == len(G.fin)'),
@@ -440,8 +440,9 @@ contract('AdbDevice._push',
                    'implies(not isnone(progress_callback), G.cb_bytes - old(G.cb_bytes) == len(G.fin) - old(G.fpos))'),
                   ('C07', 'no-callback-no-calls', 'implies(isnone(progress_callback), G.cb_bytes == old(G.cb_bytes))'),
                   RELEASED, MONO],
+         # a FAIL from the device surfaces from a push as PushFailedError only: AdbCommandFailureException is deliberately NOT in this clause
          raises=dict(exc_all([RELEASED, MONO]),
-                     **dict(FS_RD_FAIL + [('PushFailedError', [('C10', 'device-answered-FAIL-at-the-status-point', 'FS_id({0}, G.fi[{0}] - 1) == FAIL'.format(LID)),
+                     **dict(FS_RD_FAIL[1:] + [('PushFailedError', [('C10', 'device-answered-FAIL-at-the-status-point', 'FS_id({0}, G.fi[{0}] - 1) == FAIL'.format(LID)),
                                                                ('C10', 'carries-the-devices-message', 'same(exc.payload, FS_data({0}, G.fi[{0}] - 1))'.format(LID)),
                                                                RELEASED, MONO]),
                                           ('OSError', [RELEASED, MONO])])),
